@@ -92,6 +92,12 @@ contract(T + "._run_single_stage", "C19",
 contract(T + ".add_stage", "C19", params={"stage": "obj:CascadeStage"}, raises=[], modifies=["self._stages"],
          ensures={"the-stage-is-appended": "len(self._stages) == len(old(self)._stages) + 1 and self._stages[len(self._stages) - 1] is stage and result is self"})
 
+contract(T + ".insert_stage", "C19", params={"stage": "obj:CascadeStage"}, raises=[], modifies=["self._stages"],
+         ensures={"one-more-stage": "len(self._stages) == len(old(self)._stages) + 1 and result is self"})
+contract(T + ".remove_stage", "C19", raises=[], modifies=["self._stages"],
+         loops={"for (i, stage) in enumerate(self._stages)": {"invariant": ["len(self._stages) == len(old(self)._stages)"]}},
+         ensures={"removes-at-most-one": "len(self._stages) == len(old(self)._stages) - (1 if result else 0)"})
+
 # the agent-based front end builds its stages here: a gate given for an agent stage must BE the gate of the stage that run() consults
 # ("a pipeline stage that has a checkpoint ..." presupposes that the checkpoint the caller supplied is installed)
 shape("AgentCascade", name="str", mode="enum:CascadeMode", max_amplification="real", halt_on_failure="bool", silent="bool", budget="any",
